@@ -134,16 +134,18 @@ structure MsgSpec where
   done : Bool
   cid : Option String
   delay : Delay
+  hcid : Option String      -- the handler overwrites the incoming correlation id with this value
 
 def parseMsg (s : String) : Option MsgSpec :=
   match splitC s '/' with
-  | [c, cid, d] => do
+  | [c, cid, d, hc] => do
     let (dl, dn) ← (match c with
       | "live" => some (false, false) | "cancelled" => some (false, true) | "deadline" => some (true, false)
       | _ => none)
     let cid ← (if cid = "n" then some none else (strOfHex cid).map some)
     let d ← parseDelay d
-    pure ⟨dl, dn, cid, d⟩
+    let hc ← (if hc = "n" then some none else (strOfHex hc).map some)
+    pure ⟨dl, dn, cid, d, hc⟩
   | _ => none
 
 def b01 (b : Bool) : String := if b then "1" else "0"
@@ -153,7 +155,7 @@ def inMeta (m : MsgSpec) : Meta :=
 
 def initSt (m : MsgSpec) (script : List Res) : St :=
   { ctx := ⟨0, m.deadline, m.done⟩, md := inMeta m, delay := m.delay, until_ := false, acked := false,
-    ticks := 0, script := script, log := [] }
+    ticks := 0, script := script, log := [], hcid := m.hcid }
 
 def showCall (c : CallObs) : String :=
   b01 c.deadline ++ b01 c.done ++ b01 c.acked ++ "/" ++ showDelay c.delay
@@ -176,7 +178,7 @@ def parseSeq (s : String) : Option (List Bool) :=
 
 /-- the DelayOnError middleware itself, called repeatedly on one message -/
 def modelDelay (c : DelayCfg) (pre : Delay) (seq : List Bool) : String :=
-  let st0 : St := { (initSt ⟨false, false, none, pre⟩ []) with md := [] }
+  let st0 : St := { (initSt ⟨false, false, none, pre, none⟩ []) with md := [] }
   let rec go (st : St) : List Bool → List String
     | [] => []
     | f :: rest =>
@@ -285,9 +287,9 @@ def delayWithin (c : DelayCfg) (b e d : Nat) : Bool :=
   let P := c.num ^ e
   let Q := c.den ^ e
   let target := Nat.min (b * P) (c.max * Q)             -- min(b·m^e, max) · Q
-  -- slack: Σ_{j<e} m^j ns, scaled by Q:  Σ_{j<e} num^j · den^(e-j)
-  let slack := (List.range e).foldl (fun acc j => acc + c.num ^ j * c.den ^ (e - j)) 0
-  decide (d * Q ≤ target) && (decide (target < d * Q + slack) || decide (target = d * Q))
+  -- what the e roundings to whole nanoseconds can lose, scaled by Q: (den-1)·Σ_{i<e} num^i·den^(e-1-i)  (0 for integer multipliers)
+  let slack := (c.den - 1) * (List.range e).foldl (fun acc i => acc + c.num ^ i * c.den ^ (e - 1 - i)) 0
+  decide (d * Q ≤ target) && decide (target ≤ d * Q + slack)
 
 def splitAtRetry : List Mw → List Mw × Option Nat × List Mw
   | [] => ([], none, [])
@@ -314,23 +316,37 @@ def delayRule (c : DelayCfg) (pre : Delay) (k : Nat) (obs : Delay) : Option Stri
       else some "delay_formula"
     | _ => some "delay_formula"
 
+/-- the incoming message's metadata after the call: only the handler itself may have changed it -/
+def inMetaAfter (m : MsgSpec) : Meta :=
+  match m.hcid with
+  | some v => [(cidKey, v), ("in_key", "in_val")]
+  | none => inMeta m
+
 def monitorStack (mws : List Mw) (m : MsgSpec) (script : List Res) (o : Obs) : String := Id.run do
-  let cid := (m.cid.getD "")
+  -- "the correlation id" of the incoming message: when the handler itself rewrites it during the call, the statement
+  -- does not say whether the id before or after the call is meant – both are accepted
+  let cidBefore := m.cid.getD ""
+  let cidAfter := match m.hcid with
+    | some v => v
+    | none => cidBefore
   let (outer, ry, inner) := splitAtRetry mws
   let mut bad : List String := []
-  -- what each attempt looks like at Retry's position (or at the top when there is no Retry)
-  let x : Nat → Res := fun i => effects cid inner (nth script i)
   let ctxDoneAtRetry := m.done || hasT0 outer
-  let (n, fin) := match ry with
-    | none => (1, x 0)
-    | some maxR => retryOwn x maxR ctxDoneAtRetry
+  -- what each attempt looks like at Retry's position (or at the top when there is no Retry)
+  let xOf : String → Nat → Res := fun cid i => effects cid inner (nth script i)
+  let finOf : String → Nat × Res := fun cid => match ry with
+    | none => (1, xOf cid 0)
+    | some maxR => retryOwn (xOf cid) maxR ctxDoneAtRetry
+  let cid := cidAfter
+  let (n, fin) := finOf cid
   let expected := effects cid outer fin
+  let expectedAlt := effects cidBefore outer (finOf cidBefore).2
   -- a panic never escapes a Recoverer
   if o.isPanic && hasMw mws .recoverer then bad := bad ++ ["recoverer_never_escapes"]
   -- composition with Retry: the attempt count is Retry's own
   if o.calls.length != n then bad := bad ++ ["retry_attempt_count"]
   -- outputs and error pass unchanged except for the documented effects
-  if o.res != showRes expected then bad := bad ++ ["transparent_result"]
+  if o.res != showRes expected && o.res != showRes expectedAlt then bad := bad ++ ["transparent_result"]
   -- a deadline is visible during the call exactly when a Timeout is in the stack (or the caller set one)
   for c in o.calls do
     if c.1 != (m.deadline || hasT mws) then bad := bad ++ ["timeout_deadline_visible"]
@@ -339,7 +355,7 @@ def monitorStack (mws : List Mw) (m : MsgSpec) (script : List Res) (o : Obs) : S
   -- the effect ends with the call
   if !o.same || o.dl != m.deadline || o.done != m.done then bad := bad ++ ["context_restored"]
   if o.acked != hasMw mws .instantAck then bad := bad ++ ["ack_only_by_instant_ack"]
-  if o.md != showMeta (inMeta m) then bad := bad ++ ["message_metadata_untouched"]
+  if o.md != showMeta (inMetaAfter m) then bad := bad ++ ["message_metadata_untouched"]
   -- delay metadata
   let ds := mws.filterMap fun mw => match mw with | .delayOnError c => some c | _ => none
   match ds with
@@ -419,18 +435,19 @@ def handle (line : String) : String :=
     match parseCfg cfg, parseDelay pre, parseSeq seq with
     | some c, some p, some s => monitorDelay c p s obs
     | _, _, _ => "bad-op"
-  | ["M", "throttle", n, count, dur] =>
-    match n.toNat?, count.toNat?, dur.toNat? with
-    | some n, some c, some d => if n = 0 || c = 0 || d / c = 0 then "bad-op" else "starts=" ++ toString n ++ " spaced=1"
-    | _, _, _ => "bad-op"
-  | ["P", "throttle", n, count, dur, "##", starts, spaced] =>
-    match n.toNat?, count.toNat?, dur.toNat? with
-    | some n, some c, some d =>
-      if n = 0 || c = 0 || d / c = 0 then "bad-op"
+  | ["M", "throttle", n, count, dur, k] =>
+    match n.toNat?, count.toNat?, dur.toNat?, k.toNat? with
+    | some n, some c, some d, some k =>
+      if n = 0 || c = 0 || d / c = 0 || k = 0 then "bad-op" else "starts=" ++ toString n ++ " spaced=1"
+    | _, _, _, _ => "bad-op"
+  | ["P", "throttle", n, count, dur, k, "##", starts, spaced] =>
+    match n.toNat?, count.toNat?, dur.toNat?, k.toNat? with
+    | some n, some c, some d, some k =>
+      if n = 0 || c = 0 || d / c = 0 || k = 0 then "bad-op"
       else if starts != "starts=" ++ toString n then "violated:transparent_result"
       else if spaced != "spaced=1" then "violated:throttle_rate"
       else "ok"
-    | _, _, _ => "bad-op"
+    | _, _, _, _ => "bad-op"
   | _ => "bad-op"
 
 end C19
